@@ -120,15 +120,7 @@ IM(c) == c \o "_im"
 ,
            fiber_cond_wait |-> {"cond_wait"},
            fiber_cond_signal |-> {"cond_signal"},
-           fiber_cond_broadcast |-> {"cond_broadcast"},
-           \* position pins for the write-free events of idle / spinning kernel threads (they only cut the
-           \* number of candidate explanations during trace validation; every call site is listed):
-           \* the deque's size/pop/steal are called from fiber_scheduler_next and fiber_scheduler_load_balance only,
-           \* event polling only from the idle branch of fiber_manager_thread_func
-           wsd_work_stealing_deque_size |-> {"sched_next", "load_balance"},
-           wsd_work_stealing_deque_pop_bottom |-> {"sched_next"},
-           wsd_work_stealing_deque_steal |-> {"load_balance"},
-           fiber_poll_events_internal |-> {"mf"}
+           fiber_cond_broadcast |-> {"cond_broadcast"}
 #! MONFIELDS
 , cvcalls |-> [c \in Conds |-> 0], cvrets |-> [c \in Conds |-> 0], cvbcalls |-> [c \in Conds |-> 0],
   cvwrets |-> [c \in Conds |-> 0], cvseen |-> [f \in Fibers |-> 0]
